@@ -467,6 +467,14 @@ class top(exp):
         return float("inf")
 
 
+def _tdivmod(a, b):
+    "integer division truncated toward zero, remainder has the sign of the dividend"
+    q = abs(a) // abs(b)
+    if (a < 0) != (b < 0):
+        q = -q
+    return (q, a - q * b)
+
+
 # -----------------------------------
 # cst holds numeric immediate values
 # -----------------------------------
@@ -590,28 +598,28 @@ class cst(exp):
     @_checkarg_numeric
     def __div__(self, n):
         if n._is_cst:
-            return cst(self.value // n.value, self.size)
+            return cst(_tdivmod(self.value, n.value)[0], self.size)
         else:
             return exp.__div__(self, n)
 
     @_checkarg_numeric
     def __truediv__(self, n):
         if n._is_cst:
-            return cst(self.value // n.value, self.size)
+            return cst(_tdivmod(self.value, n.value)[0], self.size)
         else:
             return exp.__truediv__(self, n)
 
     @_checkarg_numeric
     def __div__(self, n):
         if n._is_cst:
-            return cst(self.value // n.value, self.size)
+            return cst(_tdivmod(self.value, n.value)[0], self.size)
         else:
             return exp.__div__(self, n)
 
     @_checkarg_numeric
     def __mod__(self, n):
         if n._is_cst:
-            return cst(self.value % n.value, self.size)
+            return cst(_tdivmod(self.value, n.value)[1], self.size)
         else:
             return exp.__mod__(self, n)
 
